@@ -26,6 +26,10 @@ type Environment struct {
 	numSet    int64
 	getMiss   int64
 	cantCache bool
+	// localFunc: this function frame, or a frame of the same function it is parented to (recursion), holds a
+	// function in a local binding: it shadows, for the recursive calls made from here, the top level function
+	// of that name which a remembered result was computed with.
+	localFunc bool
 	function  *Function
 	registers [NumRegisters]int64
 	numReg    int
@@ -396,7 +400,26 @@ func (e *Environment) create(name string, val Object) Object {
 	}
 	val = Value(val)
 	e.store[name] = val
+	e.noteLocal(val)
 	return val
+}
+
+// noteLocal records that a function was stored in a binding of this (non top level) frame. See localFunc.
+func (e *Environment) noteLocal(val Object) {
+	if e.depth > 0 && val.Type() == FUNC {
+		e.localFunc = true
+	}
+}
+
+// LocalFunc: see the localFunc field.
+func (e *Environment) LocalFunc() bool {
+	return e.localFunc
+}
+
+// SameFunction is NewFunctionEnvironment's test "fn is the function this frame is running" (a recursive call:
+// the callee's frame is parented to this one and sees its local variables).
+func (e *Environment) SameFunction(fn Function) bool {
+	return (e.cacheKey == fn.CacheKey) && e.function != nil && e.function.Env == fn.Env
 }
 
 func (e *Environment) update(name string, found, val Object) Object {
@@ -413,6 +436,7 @@ func (e *Environment) update(name string, found, val Object) Object {
 	}
 	writer.functionChanged(e.store[name])
 	e.store[name] = val
+	e.noteLocal(val)
 	if e.depth == 0 {
 		e.numSet++
 	}
@@ -435,6 +459,7 @@ func (e *Environment) SetNoChecks(name string, val Object, create bool) Object {
 		log.Debugf("SetNoChecks(%s) created ref %s in %d", name, ref.Name, ref.RefEnv.depth)
 		e.functionChanged(ref.RefEnv.store[ref.Name])
 		ref.RefEnv.store[ref.Name] = Value(val) // kinda neat to make aliases but it can create loops, so not for now.
+		ref.RefEnv.noteLocal(Value(val))
 		return val
 	}
 	log.Debugf("SetNoChecks(%s) brand new to %d and above", name, e.depth)
@@ -517,7 +542,7 @@ func NewFunctionEnvironment(fn Function, current *Environment) (*Environment, bo
 	// Same function means the same closure: same text and same defining environment. Two closures made by
 	// one factory (mk=func(a){func(f){...}}) share their text but not their captured variables: when one calls
 	// the other, the callee must see its own captures and not the caller's.
-	sameFunction := (current.cacheKey == fn.CacheKey) && current.function != nil && current.function.Env == fn.Env
+	sameFunction := current.SameFunction(fn)
 	if !sameFunction {
 		parent = fn.Env
 	}
@@ -529,6 +554,9 @@ func NewFunctionEnvironment(fn Function, current *Environment) (*Environment, bo
 		depth:    parent.depth + 1,
 		function: &fn,
 		funcGen:  parent.funcGen,
+	}
+	if sameFunction {
+		env.localFunc = current.localFunc
 	}
 	return env, sameFunction
 }
